@@ -228,7 +228,103 @@ where
     · exact hn
     · exact hn
 
+/-! ### Liveness as a safety bound: the callers ahead of a waiter are its variant -/
+
+/-- once in the queue, a caller stays there until its own removal, and nobody overtakes it:
+    every later member of the queue was already there or arrived later (larger id) -/
+theorem queue_only_grows_behind (cfg : Cfg) (s : St) (as : List Act) (s' : St) (h : run cfg s as = some s') :
+    s.next ≤ s'.next ∧ ∀ z ∈ s'.q.callers, z ∈ s.q.callers ∨ s.next < z := by
+  refine LTS.inv_run (step cfg) (fun t => s.next ≤ t.next ∧ ∀ z ∈ t.q.callers, z ∈ s.q.callers ∨ s.next < z) ?_ s as s'
+    ⟨Nat.le_refl _, fun z hz => Or.inl hz⟩ h
+  intro t a t' ⟨hn, hm⟩ hs
+  have sub : ∀ id z, z ∈ (t.q.rem cfg id).1.callers → z ∈ t.q.callers := by
+    intro id z hz; rw [rem_callers_erase] at hz; exact List.mem_of_mem_erase hz
+  cases a <;> simp only [step] at hs <;> split at hs <;> simp at hs <;> subst hs
+  · rename_i id hlt
+    refine ⟨by show s.next ≤ id; omega, ?_⟩
+    intro z hz
+    replace hz : z ∈ (t.q.enq id).callers := hz
+    rw [enq_callers'] at hz
+    rcases List.mem_append.mp hz with hz | hz
+    · exact hm z hz
+    · simp at hz; subst hz; right; omega
+  · exact ⟨hn, hm⟩
+  · exact ⟨hn, fun z hz => hm z (sub _ z hz)⟩
+  · exact ⟨hn, fun z hz => hm z (sub _ z hz)⟩
+  · exact ⟨hn, fun z hz => hm z (sub _ z hz)⟩
+
+/-- `waiter_variant`: a removal (unlock, TTL or cancel) of a caller ahead of `x` brings `x` exactly
+    one place forward, and no step whatsoever puts anybody in front of `x`. -/
+theorem waiter_variant (cfg : Cfg) (s : St) (pre post : List Nat) (x y : Nat) (s' : St)
+    (hq : s.q.callers = pre ++ x :: post) (hy : y ∈ pre)
+    (hs : step cfg s (.unlock y) = some s' ∨ step cfg s (.ttl y) = some s' ∨ step cfg s (.cancel y) = some s') :
+    s'.q.callers = pre.erase y ++ x :: post ∧ (pre.erase y).length + 1 = pre.length := by
+  have key := remove_ahead cfg s.q pre post x y hq hy
+  rcases hs with hs | hs | hs <;> simp only [step] at hs <;> split at hs <;> simp at hs <;> subst hs <;> exact key
+
+/-- `granted_when_ahead_gone`: a waiter with `n` callers ahead of it is granted as soon as those
+    `n` callers have left (by unlock, TTL or cancellation — `n` removals), whatever else happened
+    in between. -/
+theorem granted_when_ahead_gone (cfg : Cfg) (hg : IsGood cfg) (as bs : List Act) (s s' : St)
+    (pre post : List Nat) (x : Nat)
+    (h0 : run cfg init as = some s) (hq : s.q.callers = pre ++ x :: post)
+    (h1 : run cfg s bs = some s') (hx : x ∈ s'.q.callers) (hgone : ∀ y ∈ pre, y ∉ s'.q.callers) :
+    s'.q.callers.head? = some x ∧ x ∈ s'.q.ready := by
+  have hi := reach_inv cfg hg as s h0
+  have hr' : run cfg init (as ++ bs) = some s' := by
+    rw [show run cfg init (as ++ bs) = LTS.run (step cfg) init (as ++ bs) from rfl, LTS.run_append]
+    rw [show LTS.run (step cfg) init as = some s from h0]; exact h1
+  have hi' := reach_inv cfg hg (as ++ bs) s' hr'
+  have hmono := (queue_only_grows_behind cfg s bs s' h1).2
+  -- in `s` the members smaller than `x` are exactly `pre`
+  have hsorted : (pre ++ x :: post).Pairwise (· < ·) := hq ▸ hi.qSorted
+  have hxle : x ≤ s.next := hi.qBound x (by rw [hq]; simp)
+  have hhead : ∀ z ∈ s'.q.callers, x ≤ z := by
+    intro z hz
+    rcases hmono z hz with hin | hnew
+    · rw [hq] at hin
+      rcases List.mem_append.mp hin with hp | hp
+      · exact absurd hz (hgone z hp)
+      · rcases List.mem_cons.mp hp with e | e
+        · omega
+        · have := (List.pairwise_append.mp hsorted).2.1
+          have := (List.pairwise_cons.mp this).1 z e
+          omega
+    · omega
+  cases hc : s'.q.callers with
+  | nil => rw [hc] at hx; simp at hx
+  | cons z t =>
+    have hzx : x ≤ z := hhead z (by rw [hc]; simp)
+    have hs' : (z :: t).Pairwise (· < ·) := hc ▸ hi'.qSorted
+    have : z = x := by
+      rcases List.mem_cons.mp (hc ▸ hx) with e | e
+      · exact e.symm
+      · have := (List.pairwise_cons.mp hs').1 x e; omega
+    subst this
+    refine ⟨rfl, ?_⟩
+    have := hi'.ready
+    unfold QInv at this
+    rw [this, hc]; simp
+
+/-- What the code does with the id of a caller that is still WAITING: `remove` matches by id only,
+    so `Unlock(key, waiterId)` would take that waiter out of the queue (its `Lock` call would then
+    sit on a `ready` channel nobody closes until its own context ends).  The property's "unlock
+    with a stale or foreign ID" does not cover this: a caller's id is created inside `Lock` and
+    returned only once the lock has been acquired, so before that nobody can present it — the
+    model's `unlock` is enabled only for acquired or absent ids (ids are capabilities; with
+    non-random ids, see `refutes_ticketIds`, the assumption fails and the check reports it). -/
+theorem waiter_id_is_a_capability (cfg : Cfg) (q : Q) (h w : Nat) (rest : List Nat) (hq : q.callers = h :: w :: rest)
+    (hne : h ≠ w) : (q.rem cfg w).1.callers = h :: rest := by
+  rw [rem_callers_erase, hq]
+  have : (h == w) = false := by simp [hne]
+  simp [List.erase_cons, this]
+
 def goodCfg : Cfg := { wake := .next, wakeOnlyIfHead := true }
+
+/-- Non-vacuity of the variant: caller 4 has two callers ahead (2 waiting, 1 holding); after those two
+    have left — one by cancellation, one by TTL — and a later arrival, 4 is the granted head. -/
+example : (run goodCfg init [.enqueue 1, .acquire 1, .enqueue 2, .enqueue 4, .cancel 2, .enqueue 5, .ttl 1]).map
+    (fun s => (s.q.callers, s.q.ready)) = some ([4, 5], [4]) := by decide
 def goodGw : GwCfg := { ttlThresh := 1000, ttlFloor := 1000 }
 
 /-- Non-vacuity: three callers, the second is cancelled while waiting, the holder's TTL fires,
